@@ -267,6 +267,48 @@ def merge_split_case(ctx, idx, rng):
         _rel(ctx, 'merge_mpo.dense', W, wantW, np.linalg.norm(wantW), {'W0': W0, 'W1': W1})
 
 
+def large_case(ctx, idx, rng):
+    """Sums, differences and operator application beyond the dense reach, compared through probe overlaps."""
+    from .. import large
+    which = ('add', 'sub', 'apply', 'mpo-add-apply')[idx % 4]
+    if which in ('apply', 'mpo-add-apply'):
+        name, d, L, H = large.pick_large(rng)
+        qd = H.qd
+    else:
+        L = int(rng.integers(8, 25)); d = int(rng.choice([2, 3, 5]))
+        qd = _qd(rng, d, str(rng.choice(['zero', 'unsorted', 'pairs'])))
+    a = large.big_state(rng, qd, L, int(rng.choice([4, 8])))
+    b = gen.rand_mps(rng, qd, L, 'random', Dmax=int(rng.choice([3, 6])), q0=int(a.qD[0][0]), qL=int(a.qD[-1][0]))
+    probes = large.probes_near(rng, [np.asarray(x, dtype=complex) for x in a.A], k=2) + [[np.asarray(x, dtype=complex) for x in b.A]]
+    ctx.case(('large', which, f'L{L // 8 * 8}+', f'd{d}'), sample={'op': which, 'L': L, 'd': d, 'bond_dims_a': a.bond_dims, 'bond_dims_b': b.bond_dims})
+    detail = {'op': which, 'L': L, 'd': d}
+    sa, sb = large.tensor_scale(a.A), large.tensor_scale(b.A)
+    if which in ('add', 'sub'):
+        r = (a + b) if which == 'add' else (a - b)
+        sgn = 1 if which == 'add' else -1
+        inv = refs.mps_invariant(r)
+        ctx.ok('large.sum-block-sparse', inv is None, str(inv), detail)
+        for p in probes:
+            want = refs.mps_overlap(p, a.A) + sgn * refs.mps_overlap(p, b.A)
+            ctx.close('large.sum[probe-overlaps]', abs(refs.mps_overlap(p, r.A) - want), 1e-10 * large.tensor_scale(p) * (sa + sb), '<probe|a+-b> != <probe|a> +- <probe|b>', detail)
+    else:
+        Hs = large.tensor_scale(H.A)
+        if which == 'mpo-add-apply':
+            H2 = H + H
+            r = ptn.apply_operator(H2, a)
+            fac = 2.0
+        else:
+            r = ptn.apply_operator(H, a)
+            fac = 1.0
+        inv = refs.mps_invariant(r)
+        ctx.ok('large.apply-block-sparse', inv is None, str(inv), detail)
+        for p in probes:
+            want = fac * refs.mpo_element(p, H.A, a.A)
+            ctx.close('large.apply[probe-overlaps]', abs(refs.mps_overlap(p, r.A) - want), 1e-10 * large.tensor_scale(p) * Hs * sa * fac, '<probe|H a> != <probe|H|a>', detail)
+        ctx.close('large.operator_average', abs(ptn.operator_average(a, H) - refs.mpo_element(a.A, H.A, a.A)), 1e-10 * Hs * sa ** 2, 'operator_average at large L', detail)
+        ctx.close('large.vdot', abs(ptn.vdot(b, a) - refs.mps_overlap(b.A, a.A)), 1e-10 * sa * sb, 'vdot at large L', detail)
+
+
 SPEC = {
     'id': 'C03',
     'rule': ('histories: every result object is edited in place and converted / used again (stale caches); sums/differences of MPS and MPO (L 1..6 incl. the single-site path, independent bond profiles one/random/maximal/over-complete for the '
@@ -284,6 +326,7 @@ SPEC = {
         Workload('apply', apply_case, quick=600, thorough=60000),
         Workload('identity', identity_case, quick=120, thorough=8000),
         Workload('from-vector', from_vector_case, quick=250, thorough=48000),
+        Workload('large', large_case, quick=80, thorough=8000),
         Workload('merge-split', merge_split_case, quick=600, thorough=64000),
     ],
     'shards': {'quick': 1, 'thorough': 16},
